@@ -104,6 +104,9 @@ def oracle(case):
                             getattr(est, name)(Q) if name == "find_active_points" else getattr(est, name)()
                         except Exception:
                             pass
+                if s["cls"] == "Douglas" and getattr(est, "feature_mask", None) is not None and s["random_state"] % 2:
+                    # a hyper-parameter of the *next* fit changed in between (no refit): the fitted model still answers
+                    est.set_params(feature_mask=np.roll(np.asarray(est.feature_mask), 1))
                 Ps = est.predict_proba(Q[idx]) if len(idx) else np.zeros((0, P.shape[1]))
                 if Ps.shape != (len(idx), P.shape[1]):
                     raise Violation(f"{label}: predict_proba of {len(idx)} rows has shape {Ps.shape}")
